@@ -295,7 +295,7 @@ impl CaseDriver for Convert {
             excluded: vec![
                 "cuts whose track layer, or assignments either of whose layers, is not below the cell's metal count (the exporter indexes per-cell arrays with them and panics: outside the well-formed cells of the quantifier)".into(),
                 "track indices outside the outline (silently ignored by the exporter), non-rectangular outlines (explicit Err), abstract views, raw-layout cells".into(),
-                "flipping layers whose offset is not -overlap/2 (mirror axis not defined by the stack documentation)".into(),
+                "for flipping layers period p starts at offset + p x pitch and lists its entries backwards when p is odd (for offset = -overlap/2 this is a mirror image about the shared rail; for other offsets it is the reading under which wires, cuts and vias of a crossing coincide)".into(),
             ],
             technique: "bounded-exhaustive enumeration of stacks x cells on the real RawExporter::convert, compared with a reference tiling model written from the statement".into(),
         }
